@@ -40,7 +40,7 @@ func (g *gen) word() string {
 	r := g.r
 	switch {
 	case r.Chance(1, 40):
-		return strings.Repeat(vlib.Pick(r, []string{"W", "m", "ab", "ש", "م", "字"}), r.Range(41, 400))
+		return strings.Repeat(vlib.Pick(r, []string{"W", "m", "ab", "ש", "م", "字"}), r.Range(41, 140))
 	case r.Chance(1, 30):
 		return strings.Repeat("x", r.Range(1, 30)) + "/" + strings.Repeat("y", r.Range(1, 30))
 	}
@@ -131,7 +131,9 @@ func (g *gen) image() string {
 	}
 }
 
-func (g *gen) counterName() string { return vlib.Pick(g.r, []string{"c", "d", "page", "pages", "list-item", "footnote", "none", "inherit", "1c"}) }
+func (g *gen) counterName() string {
+	return vlib.Pick(g.r, []string{"c", "d", "page", "pages", "list-item", "footnote", "none", "inherit", "1c"})
+}
 
 func (g *gen) counterStyleName() string {
 	return vlib.Pick(g.r, []string{"decimal", "lower-roman", "upper-alpha", "disc", "cs0", "cs1", "cs2", "cs3", "undefined-style", "decimal-leading-zero", "lower-greek", "armenian", "georgian", "hebrew", "cjk-decimal", "ethiopic-numeric", "simp-chinese-informal", "disclosure-open", "symbols(cyclic 'a' 'b')", "symbols(numeric '0')", "symbols(alphabetic 'a')", "symbols(fixed)", "symbols()", "none", "'-'"})
@@ -273,7 +275,9 @@ func init() {
 	add("border-image-width", kw("1", "0", "auto", "10px", "50%", "1e9"), 1)
 	add("border-image-outset", kw("0", "10px", "2", "1e9px"), 1)
 	add("border-image-repeat", kw("stretch", "repeat", "round", "space", "round space"), 1)
-	add("border-image", func(g *gen) string { return g.image() + " " + vlib.Pick(g.r, []string{"1", "10 fill / 5px / 2px round", "50% / 0", "0", "1 / 1e9px"}) }, 2)
+	add("border-image", func(g *gen) string {
+		return g.image() + " " + vlib.Pick(g.r, []string{"1", "10 fill / 5px / 2px round", "50% / 0", "0", "1 / 1e9px"})
+	}, 2)
 	add("outline", func(g *gen) string { return g.length() + " solid " + g.color() }, 2)
 	add("table-layout", kw("fixed", "auto"), 6)
 	add("caption-side", kw("top", "bottom", "block-start"), 2)
@@ -359,7 +363,9 @@ func init() {
 	add("list-style-type", func(g *gen) string { return g.counterStyleName() }, 6)
 	add("list-style-position", kw("inside", "outside"), 3)
 	add("list-style-image", func(g *gen) string { return g.image() }, 2)
-	add("list-style", func(g *gen) string { return g.counterStyleName() + " " + vlib.Pick(g.r, []string{"inside", "outside", ""}) }, 2)
+	add("list-style", func(g *gen) string {
+		return g.counterStyleName() + " " + vlib.Pick(g.r, []string{"inside", "outside", ""})
+	}, 2)
 	add("string-set", kw("s content()", "s content(text)", "s content(before)", "s attr(title)", "s 'x' counter(c)", "s content(first-letter)", "none", "s", "s content(), t 'y'", "s counter(page)", "s counters(c, '.')", "s target-counter(attr(href), page)"), 3)
 	add("bookmark-label", kw("content()", "content(text)", "'b' counter(c)", "none", "attr(title)", "content(before) content(after)", "counter(page)", "target-text(attr(href))"), 3)
 	add("bookmark-level", kw("1", "2", "none", "0", "-1", "1e9", "6"), 3)
